@@ -16,7 +16,7 @@
 #[verifier::external_body] pub struct Instant { _opaque: () }
 #[verifier::external_body] pub struct PayloadHistory { _opaque: () }
 #[verifier::external_body] pub struct SharedHistory { _opaque: () }
-#[verifier::external_body] pub struct ReadGuard<'a> { _p: &'a SharedHistory }
+#[verifier::external_body] pub struct Serial { _opaque: () }
 #[verifier::external_body] pub struct NotifySender { _opaque: () }
 #[verifier::external_body] #[verifier::reject_recursive_types(T)] pub struct Receiver<T> { _t: T }   // std::sync::mpsc::Receiver
 #[verifier::external_body] #[verifier::reject_recursive_types(T)] pub struct Sender<T> { _t: T }     // tokio::sync::oneshot::Sender
@@ -39,6 +39,7 @@ impl ValidationReport {
 }
 impl Engine {
     #[verifier::external_body] pub fn new(config: &Config, update: bool) -> Result<Engine, Failed> { unimplemented!() }
+    #[verifier::external_body] pub fn disable_collector(&mut self) { unimplemented!() }
     #[verifier::external_body] pub fn ignite(&mut self) -> Result<(), Failed> { unimplemented!() }
     #[verifier::external_body] pub fn sanitize(&self) -> (r: Result<(), Fatal>) { unimplemented!() }
     #[verifier::external_body] pub fn reload_tals(&mut self) -> Result<(), Failed> { unimplemented!() }
@@ -53,6 +54,14 @@ impl LocalExceptions {
 }
 impl Metrics {
     #[verifier::external_body] pub fn rsync_complete(&self) -> bool { unimplemented!() }
+}
+impl NotifySender {
+    // (ghost run log is carried by the sender, see below) wakes the subscribed clients; no run is performed
+    #[verifier::external_body]
+    pub fn notify(&mut self)
+        ensures final(self).failed_runs() == old(self).failed_runs(),
+                final(self).failed_regular_runs() == old(self).failed_regular_runs(),
+    { unimplemented!() }
 }
 impl LogOutput {
     #[verifier::external_body] pub fn start(&self) { unimplemented!() }
@@ -78,18 +87,31 @@ impl Server {
     { unimplemented!() }
 }
 impl SharedHistory {
-    #[verifier::external_body] pub fn read(&self) -> (g: ReadGuard<'_>) { unimplemented!() }
+    #[verifier::external_body] pub fn read(&self) -> (g: &PayloadHistory) { unimplemented!() }
+    #[verifier::external_body] pub fn mark_update_start(&self) { unimplemented!() }
+    #[verifier::external_body] pub fn mark_update_done(&self) { unimplemented!() }
 }
-impl<'a> Deref for ReadGuard<'a> {
-    type Target = PayloadHistory;
-    #[verifier::external_body] fn deref(&self) -> (r: &PayloadHistory) { unimplemented!() }
-}
+// PayloadHistory accessors used through the read guard (guard modelled as a plain reference; contracts:
+// none needed here -- what they return is proved in units history / history_locks / schedule)
 impl PayloadHistory {
-    #[verifier::external_body] pub fn refresh_wait(&self) -> Duration { unimplemented!() }   // unit schedule
+    #[verifier::external_body] pub fn is_active(&self) -> bool { unimplemented!() }
+    #[verifier::external_body] pub fn current(&self) -> Option<Arc<PayloadSnapshot>> { unimplemented!() }
+    #[verifier::external_body] pub fn refresh_wait(&self) -> Duration { unimplemented!() }
+    #[verifier::external_body] pub fn update_wait(&self) -> Duration { unimplemented!() }
+    #[verifier::external_body] pub fn serial(&self) -> Serial { unimplemented!() }
+    #[verifier::external_body] pub fn session(&self) -> u64 { unimplemented!() }
+    #[verifier::external_body] pub fn session_and_serial(&self) -> (u64, Serial) { unimplemented!() }
+    #[verifier::external_body] pub fn rtr_session(&self) -> u16 { unimplemented!() }
+    #[verifier::external_body] pub fn metrics(&self) -> Option<Arc<Metrics>> { unimplemented!() }
+    #[verifier::external_body] pub fn last_update_duration(&self) -> Option<Duration> { unimplemented!() }
 }
 impl Duration {
     #[verifier::external_body] pub fn from_secs(s: u64) -> Duration { unimplemented!() }
+    #[verifier::external_body] pub fn from_millis(s: u64) -> Duration { unimplemented!() }
+    #[verifier::external_body] pub fn as_secs(&self) -> u64 { unimplemented!() }
 }
+impl Clone for Duration { #[verifier::external_body] fn clone(&self) -> Duration { unimplemented!() } }
+impl Copy for Duration {}
 impl Instant {
     #[verifier::external_body] pub fn now() -> Instant { unimplemented!() }
     #[verifier::external_body] pub fn saturating_duration_since(&self, earlier: Instant) -> Duration { unimplemented!() }
